@@ -49,6 +49,15 @@ def isr_obj(variant, part, singles):
 def st_idx(draw, sp1, sp2):
     n_o = sp1.count("h") + sp2.count("h")
     n_v = sp1.count("p") + sp2.count("p")
+    if draw(st.booleans()):
+        # the names every user types (ia,jb / ijab,klcd): the same request
+        # strings then recur on the differently configured objects (with /
+        # without first-order singles, mp / re) that live in one process
+        i1 = list(ALPHABET["occ"][:sp1.count("h")]) + \
+            list(ALPHABET["virt"][:sp1.count("p")])
+        i2 = list(ALPHABET["occ"][sp1.count("h"):n_o]) + \
+            list(ALPHABET["virt"][sp1.count("p"):n_v])
+        return i1, i2
     occ = list(draw(st.permutations(list(ALPHABET["occ"]))))[:n_o]
     virt = list(draw(st.permutations(list(ALPHABET["virt"]))))[:n_v]
     if draw(st.integers(0, 3)) == 0:
